@@ -2270,7 +2270,7 @@ class Scenarios(Gen):
             out.append(t)
         return out
 
-    def scn_soak(self, n=300, max_cost=12.0, nkinds=3, kinds=None):
+    def scn_soak(self, n=300, max_cost=12.0, nkinds=3, kinds=None, mode=None):
         """a long single-caller history: a few functions are called hundreds of
         times with *distinct* arguments (so that a bounded cache fills, overflows
         and wraps), earlier calls are repeated now and then, and the first calls
@@ -2304,7 +2304,8 @@ class Scenarios(Gen):
         # the very same calls - after it: what did the long run do to everybody else?
         probes = []
         pb = Builder(self)
-        mode = "seq" if r.random() < 0.5 else True
+        if mode is None:
+            mode = "seq" if r.random() < 0.5 else True
         if mode == "seq":
             # small consecutive integers everywhere: the probes' operands 2, 3, 4 ...
             # are also among the long run's operands
